@@ -27,7 +27,7 @@ type A1 struct {
 	X int `plenc:"2"`
 }
 type B1 struct {
-	A []A1  `plenc:"1"`
+	A []A1   `plenc:"1"`
 	Y string `plenc:"2"`
 }
 
@@ -115,3 +115,21 @@ type NPlain struct {
 	A null.String `plenc:"1"`
 	B string      `plenc:"2"`
 }
+
+// Unexp mixes encoded fields with unexported, blank and skipped ones.
+type Unexp struct {
+	A  int    `plenc:"1"`
+	b  string //nolint
+	C  string `plenc:"-"`
+	d  *int   //nolint
+	_  int
+	E  int    `plenc:"2"`
+	_x int    `plenc:"3"` //nolint
+	F  []byte `plenc:"-"`
+}
+
+// SetUnexp fills the unexported fields (the harness lives in another package).
+func (u *Unexp) SetUnexp(b string, d *int, x int) { u.b, u.d, u._x = b, d, x }
+
+// GetUnexp reads them back.
+func (u *Unexp) GetUnexp() (string, *int, int) { return u.b, u.d, u._x }
